@@ -241,6 +241,24 @@ func (ev *Eval) ident(name string) Value {
 			}
 		}
 	}
+	if !ev.callee && ev.fr != nil && strings.HasPrefix(name, "rangeindex") && len(name) > len("rangeindex") {
+		// rangeindexN: the hidden index of range loop N of this function (for invariants of nested loops)
+		if n, err := strconv.Atoi(name[len("rangeindex"):]); err == nil {
+			for h, li := range ev.fr.loops {
+				if li.ordinal != n {
+					continue
+				}
+				if a := rangeIndexAlloc(h); a != nil {
+					if id, ok := ev.fr.cellOf[a]; ok {
+						if c, live := ev.st.cells[id]; live {
+							return ev.x.load(ev.st, &Loc{Kind: LCell, CellID: id, Root: c.Typ, Typ: c.Typ})
+						}
+					}
+				}
+			}
+			ev.fail("%s: loop %d is not a live range loop here", name, n)
+		}
+	}
 	if !ev.callee && ev.fr != nil && ev.fr.ctx != nil {
 		// ghost variables of the function under verification are visible from its inlined closures
 		if id, ok := ev.fr.ctx.ghost[name]; ok {
